@@ -162,6 +162,17 @@ check("C14", "Lean 4 theorems over a hand model of every asdict/fromdict pair on
       "Lean kernel; standard axioms; hand model tied by correspondence; pickle trusted (oracle only); PARTIAL: floating-point degree/radian rounding is outside the real reading (tie checks 1e-9).",
       "DESIGN.md §6 C14")
 
+check("C15", "Lean 4 theorems over a hand model of refine_ub and of the closed-form fit (+ generated quaternion/cell code) + correspondence + post-condition oracle",
+      "Theorems (Props/C15.lean, real reading): column i of B scales as 1/a_i; the rescale factor gives |B'hkl| = 2 pi |q|/lambda; set_lattice(name, system, rescaled six) keeps the system and scales every "
+      "length with a non-zero index (tied lengths together — after the repair); the Rodrigues rotation about (UB hkl) x q by the angle between them aligns the directions; hence refineUb_post / "
+      "refineUb_reproduces: with both flags, on the main branch, get_hkl(position) = hkl for every system, start orientation, position and zero pattern. fit_ub: whatever SLSQP returns, the cell stays in the "
+      "system and U is a proper rotation; closed form (triclinic): exactly consistent data => least-squares matrix = (UB)^T, Gram-Schmidt returns U, the dual basis has metric tensor G, so lattice and U are "
+      "recovered exactly (fitUncon_exact). Correspondence: model vs refine_ub (cell, U, UB; 4 flag combinations) and vs _fit_ub_uncon. Oracle: refine_ub post-condition on all systems/zero patterns; "
+      "fit_ub on exact reflections from the solver (verified by an independent forward model): system kept, U proper, misfit not larger, triclinic exact to 1e-8.",
+      "Lean kernel; standard axioms; hand model tied by correspondence; scipy SLSQP is a parameter (any output); PARTIAL: 'not reproduced worse than before' for SLSQP systems is oracle-only; skip "
+      "thresholds (|sc-1| < 1e-7, |axis| < 1e-7) are hypotheses of the main-branch theorem.",
+      "DESIGN.md §6 C15")
+
 NOT_APPLICABLE = []   # filled below for properties without a registered check
 
 ALL = ["C%02d" % i for i in range(1, 21)]
